@@ -28,6 +28,7 @@ class FnSource:
     loop_ord: dict = field(default_factory=dict)  # id(For/While) -> "0", "0.0", "1", ... (nesting path)
     after_key: dict = field(default_factory=dict)  # id(stmt) -> "after <pattern> #k" (k-th statement of that pattern)
     generic_key: dict = field(default_factory=dict)  # id(stmt) -> "assign a[] #k": element store into a, whatever the index
+    renamed_locals: list = field(default_factory=list)  # (current name, name the contract uses) pairs mapped back (pure renaming)
 
 
 def module_path(module: str) -> str:
@@ -144,11 +145,99 @@ def get_function(qualname: str) -> FnSource:
                          decorator_list=[], returns=None, type_comment=None, type_params=[])
     ast.fix_missing_locations(nd)
     h = hashlib.sha256(ast.dump(nd, include_attributes=False).encode()).hexdigest()
+    import copy as _copy
+    node = _copy.deepcopy(node)          # the cached module AST stays untouched
+    renamed = undo_pure_renaming(qualname, node)
     fs = FnSource(full, path, node, src, h)
+    fs.renamed_locals = renamed
     fs.consts = _module_consts(tree, module)
     fs.module_funcs = {s.name: s for s in tree.body if isinstance(s, ast.FunctionDef)}
     index_function(fs)
     return fs
+
+
+# ---- renamed locals -------------------------------------------------------------------------------------------------
+# Contracts name local variables of the real functions.  A refactoring that only renames locals would make every such
+# clause dangle.  contracts/_shapes.json (written by tools/gen_shapes.py from the tree the contracts were written
+# against) records, per function, the hash of its AST with the locals replaced by v0, v1, ... in order of first
+# occurrence, and the names in that order.  If the current function has the *same* canonical hash but other names, the
+# change is a pure renaming and the names are mapped back position by position before anything else looks at the AST;
+# for any other change nothing is done here.
+_SHAPES = None
+
+
+def _local_names(node: ast.FunctionDef):
+    """parameters and every name bound in the function body (assignment, loop, with, comprehension targets), in order of
+    first occurrence in a pre-order walk; nested function definitions are left alone"""
+    order, seen = [], set()
+
+    def add(n):
+        if n not in seen:
+            seen.add(n)
+            order.append(n)
+    for a in node.args.posonlyargs + node.args.args + node.args.kwonlyargs:
+        add(a.arg)
+    if node.args.vararg:
+        add(node.args.vararg.arg)
+    if node.args.kwarg:
+        add(node.args.kwarg.arg)
+    bound = {n.id for n in ast.walk(node) if isinstance(n, ast.Name) and isinstance(n.ctx, (ast.Store, ast.Del))}
+    for n in ast.walk(node):
+        if isinstance(n, ast.Name) and (n.id in bound or n.id in seen):
+            add(n.id)
+    return order
+
+
+def _canonical(node: ast.FunctionDef, names):
+    import copy
+    m = {n: f"v{k}" for k, n in enumerate(names)}
+    c = copy.deepcopy(node)
+    c.decorator_list, c.returns = [], None
+    c.body = strip_doc(c.body) or [ast.Pass()]
+    for n in ast.walk(c):
+        if isinstance(n, ast.Name) and n.id in m:
+            n.id = m[n.id]
+        elif isinstance(n, ast.arg):
+            if n.arg in m:
+                n.arg = m[n.arg]
+            n.annotation = None
+        elif isinstance(n, ast.AnnAssign):
+            n.annotation = ast.Constant(None)
+    c.name = "f"
+    return hashlib.sha256(ast.dump(c, include_attributes=False).encode()).hexdigest()
+
+
+def shape_of(node: ast.FunctionDef):
+    names = _local_names(node)
+    return {"canonical": _canonical(node, names), "locals": names}
+
+
+def undo_pure_renaming(qualname: str, node: ast.FunctionDef):
+    """-> list of (current name, recorded name) pairs that were mapped back (empty if nothing was done)"""
+    global _SHAPES
+    if _SHAPES is None:
+        import json
+        path = os.path.join(os.path.dirname(os.path.dirname(os.path.abspath(__file__))), "contracts", "_shapes.json")
+        try:
+            with open(path, encoding="utf-8") as f:
+                _SHAPES = json.load(f)
+        except (OSError, ValueError):
+            _SHAPES = {}
+    rec = _SHAPES.get(qualname)
+    if not rec:
+        return []
+    cur = shape_of(node)
+    if cur["locals"] == rec["locals"] or cur["canonical"] != rec["canonical"] or len(cur["locals"]) != len(rec["locals"]):
+        return []
+    m = {a: b for a, b in zip(cur["locals"], rec["locals"]) if a != b}
+    tmp = {a: f"__renamed_{k}__" for k, a in enumerate(m)}        # two steps: a <-> b swaps must not collide
+    for table in (tmp, {tmp[a]: b for a, b in m.items()}):
+        for n in ast.walk(node):
+            if isinstance(n, ast.Name) and n.id in table:
+                n.id = table[n.id]
+            elif isinstance(n, ast.arg) and n.arg in table:
+                n.arg = table[n.arg]
+    return sorted(m.items())
 
 
 def stmt_pattern(s):
